@@ -100,6 +100,12 @@ T = [
  ('C14-r7m4', '/tmp/mut-R7/mutants/4', 'C14', [('demo_test.rs', 'src/tests/sim_tests/repeat_sim_tests.rs', M, 'r7m4_')]),
  ('C04-r7m5', '/tmp/mut-R7/mutants/5', 'C04', [('demo_test.rs', 'keyberon/src/layout.rs', K, 'r7m5_')]),
  ('C19-r7m6', '/tmp/mut-R7/mutants/6', 'C19', [('demo_test.rs', 'src/tests/sim_tests/macro_sim_tests.rs', M, 'r7m6_')]),
+ # ---- round 8: parser/src/cfg/key_override.rs (C13, claimed late)
+ ('C13-r8m1', '/tmp/mut-R8/mutants/1', 'C13', [('demo_test.rs', 'src/tests/sim_tests/override_tests.rs', M, 'r8m1_')]),
+ ('C13-r8m2', '/tmp/mut-R8/mutants/2', 'C13', [('demo_test.rs', 'src/tests/sim_tests/override_tests.rs', M, 'r8m2_')]),
+ ('C13-r8m3', '/tmp/mut-R8/mutants/3', 'C13', [('demo_test.rs', 'parser/src/cfg/key_override.rs', P, 'r8m3_')]),
+ ('C13-r8m4', '/tmp/mut-R8/mutants/4', 'C13', [('demo_test.rs', 'src/tests/sim_tests/override_tests.rs', M, 'r8m4_')]),
+ ('C13-r8m5', '/tmp/mut-R8/mutants/5', 'C13', [('demo_test.rs', 'src/tests/sim_tests/override_tests.rs', M, 'r8m5_')]),
 ]
 ENV = dict(os.environ, CARGO_TARGET_DIR=TGT, CARGO_NET_OFFLINE='true')
 
